@@ -437,6 +437,10 @@ def run(ctx: Ctx):
     offset_reservation_rule(ctx, "R06.6")
     ctx.floor("R06.6", 1)
     milestone_bound_rule(ctx, "R06.7")
+    # ---------------------------------------------------------------- R06.9 which backward tasks are terminal (and so are pinned to the
+    # container end, milestones included) is decided over own + inherited edges (= C04 R04.1)
+    from .c04 import edge_set_rule
+    edge_set_rule(ctx, "R06.9", only={"Project._propagateContainerEndDates"})
     ctx.floor("R06.7", 4)
     ctx.floor("R06.1", 6)
     ctx.floor("R06.2", 3)
